@@ -377,6 +377,13 @@ static inline int post_verif_repeat_each(sv_t shape, sv_t idx, sv_t repeats, int
       && IMPLIES(g < d && g == ax, j < SV_LEN(repeats) && spec_repeats_cumsum(repeats, j) <= SV_AT(idx, ax)
                                    && SV_AT(idx, ax) < spec_repeats_cumsum(repeats, j + 1UL));
 }
+/* bounded unit repeat_each.bounded: the same contract on rank <= C04_RB_RANK, len(repeats) <= C04_RB_LEN */
+#define C04_RB_RANK 4UL
+#define C04_RB_LEN 5UL
+static inline int pre_verif_repeat_each_b(sv_t shape, sv_t idx, sv_t repeats, int axis)
+{ return SV_LEN(shape) <= C04_RB_RANK && SV_LEN(repeats) <= C04_RB_LEN && pre_verif_repeat_each(shape, idx, repeats, axis); }
+static inline int post_verif_repeat_each_b(sv_t shape, sv_t idx, sv_t repeats, int axis, hn_t ret)
+{ return post_verif_repeat_each(shape, idx, repeats, axis, ret); }
 /* loop-contract vocabulary (expanded inside the instantiated functions only) */
 #define C04_CUMSUM_DONE(k) (!((k) < i && (k) < array->size_) || ret.buffer_._M_elems[k] == RCS[(k) + 1UL])
 
